@@ -26,6 +26,22 @@ Qed.
 Lemma beq_key_refl k : beq_key k k = true.
 Proof. apply beq_key_eq. reflexivity. Qed.
 
+Lemma mkey_eq_dec (a b : mkey) : {a = b} + {a <> b}.
+Proof.
+  destruct (beq_key a b) eqn:E; [left; apply beq_key_eq; exact E|].
+  right. intros ->. rewrite beq_key_refl in E. discriminate.
+Qed.
+
+Lemma NoDup_app_one {A} (l : list A) k : NoDup l -> ~ In k l -> NoDup (l ++ [k]).
+Proof.
+  induction l as [|x l IH]; cbn; intros Hnd Hn.
+  - constructor; [intros []|constructor].
+  - inversion Hnd as [|? ? Hx Hr]; subst. constructor.
+    + intros Hin. apply in_app_iff in Hin. destruct Hin as [Hin|[->|[]]]; [contradiction|].
+      apply Hn. left. reflexivity.
+    + apply IH; [exact Hr|]. intros Hi. apply Hn. right. exact Hi.
+Qed.
+
 Lemma named_eq n x : named n x = true <-> y_name x = n.
 Proof. unfold named. rewrite beq_bytes_eq. split; congruence. Qed.
 
@@ -143,7 +159,7 @@ Lemma describe_imponly_obs m : visible m -> y_impl m = false -> imp_obs (describ
 Proof.
   intros [Hr Hf] H. unfold imp_obs, describe_imponly, obs_flat. cbn [yi_name yi_rev].
   rewrite (Hf H). unfold y_impl in H. rewrite H. unfold y_name, y_rev in *.
-  destruct (h_rev (y_mod m)) as [[|b r]|]; [congruence|reflexivity|reflexivity].
+  destruct (h_rev (y_mod m)) as [[|b r]|] eqn:E; [exfalso; apply Hr; reflexivity|reflexivity|reflexivity].
 Qed.
 
 Theorem describe_tells_obs cid c : (forall m, In m c -> visible m) ->
@@ -298,7 +314,7 @@ Section Roundtrip.
   Proof. intros [->| ->]; [reflexivity|apply blank_idem]. Qed.
 
   Lemma s_key_inj m m' : In m s -> In m' s -> key_of m = key_of m' -> m = m'.
-  Proof. intros. eapply nodup_key_inj; eauto. Qed.
+  Proof. intros Hm Hm' Hk. exact (nodup_key_inj s m m' Hs_nodup Hm Hm' Hk). Qed.
 
   Lemma denotes_key i m m' : In m s -> In m' s -> denotes i m -> denotes i m' -> key_of m = key_of m'.
   Proof.
@@ -387,14 +403,13 @@ Section Roundtrip.
     induction fuel as [|fuel IH]; intros stack c i m Hinv Hcl H0 Hm Hd Hf Hst; [lia|].
     cbn [parse_load].
     destruct (resolve_spec c i m Hinv Hm Hd H0) as [Rin Rout].
-    destruct (in_dec (prod_eq_dec (list_eq_dec N.eq_dec) (option_eq_dec (list_eq_dec N.eq_dec)))
-                     (key_of m) (map key_of c)) as [Hin|Hnin].
+    destruct (in_dec mkey_eq_dec (key_of m) (map key_of c)) as [Hin|Hnin].
     - (* already present *)
       rewrite (Rin Hin).
       assert (Hex : existsb (beq_key (key_of m)) stack = false).
       { apply not_true_is_false. intros E. apply existsb_exists in E. destruct E as (k & Hk & E).
         apply beq_key_eq in E. subst k. specialize (Hst _ Hk). lia. }
-      rewrite Hex. exists []. rewrite app_nil_r. repeat split; try assumption; apply Hinv.
+      rewrite Hex. exists []. rewrite app_nil_r. split; [reflexivity|]. split; [exact Hinv|]. split; [exact Hcl|exact Hin].
     - destruct (Rout Hnin) as (ms & -> & Hk & Hb).
       rewrite Hk.
       (* the imports of the new module *)
@@ -408,18 +423,18 @@ Section Roundtrip.
                            (forall i1, In i1 is -> forall m1, In m1 s -> denotes i1 m1 ->
                                                               In (key_of m1) (map key_of (c1 ++ l1)))).
       { induction is as [|i1 is IHis]; intros c1 Hsub Hinv1 Hcl1 H01.
-        - exists []. rewrite app_nil_r. cbn [load_list]. repeat split; try assumption; try apply Hinv1.
-          intros i1 [].
+        - exists []. rewrite app_nil_r. cbn [load_list]. split; [reflexivity|]. split; [exact Hinv1|].
+          split; [exact Hcl1|]. intros i1 [].
         - cbn [load_list].
           destruct (Himp m Hm i1 (Hsub i1 (or_introl eq_refl))) as (m1 & Hm1 & Hd1 & Hrk1).
           destruct (IH st c1 i1 m1 Hinv1 Hcl1 H01 Hm1 Hd1) as (l & E & Hinv2 & Hcl2 & Hin2).
           { lia. }
-          { intros k [<-|Hk]; [exact Hrk1|]. specialize (Hst _ Hk). lia. }
+          { intros k [<-|Hks]; [exact Hrk1|]. specialize (Hst _ Hks). lia. }
           rewrite E.
           destruct (IHis (c1 ++ l)) as (l2 & E2 & Hinv3 & Hcl3 & Hall3); try assumption.
           { intros i2 Hi2. apply Hsub. right. exact Hi2. }
-          { intros k Hk. rewrite map_app. apply in_app_iff. left. apply H01. exact Hk. }
-          exists (l ++ l2). rewrite app_assoc. repeat split; try assumption.
+          { intros k Hk0. rewrite map_app. apply in_app_iff. left. apply H01. exact Hk0. }
+          exists (l ++ l2). rewrite app_assoc. split; [exact E2|]. split; [exact Hinv3|]. split; [exact Hcl3|].
           intros i2 [<-|Hi2] m2 Hm2 Hd2.
           + rewrite (denotes_key i1 m2 m1 Hm2 Hm1 Hd2 Hd1).
             rewrite map_app. apply in_app_iff. left. exact Hin2.
@@ -433,10 +448,10 @@ Section Roundtrip.
       destruct (Hloop (y_imports ms) (c ++ [blank ms])) as (l1 & E1 & Hinv2 & Hcl2 & Hall2); try assumption.
       { intros i1 Hi1. rewrite <- Himps. exact Hi1. }
       { intros k Hk0. rewrite map_app. apply in_app_iff. left. apply H0. exact Hk0. }
-      rewrite E1. exists ([blank ms] ++ l1). rewrite app_assoc. repeat split; try assumption.
+      rewrite E1. exists ([blank ms] ++ l1). rewrite app_assoc. split; [reflexivity|]. split; [exact Hinv2|]. split.
       + (* the module has left the stack: all its imports are present *)
         intros x Hx Hns i1 Hi1 m1 Hm1 Hd1.
-        destruct (prod_eq_dec (list_eq_dec N.eq_dec) (option_eq_dec (list_eq_dec N.eq_dec)) (key_of x) (key_of m)) as [Ek|Nk].
+        destruct (mkey_eq_dec (key_of x) (key_of m)) as [Ek|Nk].
         * destruct (inv_key_in _ x Hinv2 Hx) as (m' & Hm' & Hs' & Hk').
           assert (m' = m) as -> by (apply s_key_inj; congruence).
           apply (Hall2 i1); try assumption. rewrite Himps, <- (sub_imports x m Hs'). exact Hi1.
@@ -506,11 +521,236 @@ Section Roundtrip.
     { intros y. unfold upd. destruct (beq_key (key_of m) (key_of y)); reflexivity. }
     assert (Hkeys : map key_of (map upd c) = map key_of c).
     { rewrite map_map. apply map_ext. exact Hupd_k. }
-    assert (Hdec : forall y : ymod, y = x \/ y <> x).
-    { intros y. destruct (prod_eq_dec (list_eq_dec N.eq_dec) (option_eq_dec (list_eq_dec N.eq_dec)) (key_of y) (key_of x)) as [E|E].
-      - destruct (in_dec (fun a b : ymod => _ : {a = b} + {a <> b}) y c) as [_|_]; [|].
-        all: try (right; intros ->; congruence).
-        all: idtac. }
     exists (map upd c). split; [reflexivity|].
-  Abort.
+    assert (Hcase : forall y, In y c -> (y = x /\ upd y = m) \/ (key_of y <> key_of m /\ upd y = y)).
+    { intros y Hy. destruct (beq_key (key_of m) (key_of y)) eqn:E.
+      - apply beq_key_eq in E. left.
+        assert (y = x) as -> by (apply (nodup_key_inj c); congruence). split; [reflexivity|exact Hupd_x].
+      - right. split; [intros E'; rewrite E', beq_key_refl in E; discriminate|].
+        unfold upd. rewrite E. reflexivity. }
+    split; [split|]; [| |split; [|split; [|split; [|split]]]].
+    - rewrite Hkeys. exact Hnd.
+    - intros y Hy. apply in_map_iff in Hy. destruct Hy as (y0 & <- & Hy0).
+      destruct (Hcase y0 Hy0) as [[-> ->]|[_ ->]]; [exists m; split; [exact Hm|left; reflexivity]|].
+      apply Hinv'. exact Hy0.
+    - rewrite <- Hupd_x. apply in_map. exact Hx.
+    - exact Hkeys.
+    - intros y Hy Hne. destruct (Hcase y Hy) as [[-> _]|[_ E]]; [congruence|]. rewrite <- E. apply in_map. exact Hy.
+    - intros y Hy. apply in_map_iff in Hy. destruct Hy as (y0 & <- & Hy0).
+      destruct (Hcase y0 Hy0) as [[-> ->]|[_ ->]]; [right; reflexivity|left; exact Hy0].
+    - intros st Hcl y Hy Hns i Hii m1 Hm1 Hd1. apply in_map_iff in Hy. destruct Hy as (y0 & <- & Hy0).
+      rewrite Hkeys. rewrite Hupd_k in Hns. rewrite Hupd_i in Hii. apply (Hcl y0 Hy0 Hns i Hii m1 Hm1 Hd1).
+  Qed.
+
+  Lemma request_denotes m : In m s -> y_impl m = true -> denotes (y_name m, y_rev m) m.
+  Proof.
+    intros Hm Hi. unfold denotes. cbn [fst snd]. destruct (y_rev m) as [r|] eqn:E.
+    - unfold key_of. rewrite E. reflexivity.
+    - split; [reflexivity|]. rewrite <- E. rewrite E. apply Hreq; assumption.
+  Qed.
+
+  (* ly_ctx_load_module for the entry of an implemented module m *)
+  Lemma load_module_spec c m : Inv c -> ClosedEx [] c -> (forall k, In k (map key_of c0) -> In k (map key_of c)) ->
+    In m s -> y_impl m = true ->
+    exists c', load_module (S (length src)) src c (y_name m) (y_rev m) (yl_features m) = Ok c' /\
+               Inv c' /\ ClosedEx [] c' /\ (forall k, In k (map key_of c) -> In k (map key_of c')) /\ In m c' /\
+               (forall x, In x c -> key_of x <> key_of m -> In x c').
+  Proof.
+    intros Hinv Hcl H0 Hm Hi. unfold load_module.
+    destruct (parse_load_spec (S (length src)) [] c (y_name m, y_rev m) m Hinv Hcl H0 Hm (request_denotes m Hm Hi))
+      as (l & E & Hinv1 & Hcl1 & Hin1).
+    { specialize (Hrk m Hm). lia. }
+    { intros k []. }
+    rewrite E.
+    destruct (set_implemented_spec (c ++ l) m Hinv1 Hm Hi Hin1) as (c' & E' & Hinv2 & Hin2 & Hkeys & Hkeep & _ & Hclk).
+    exists c'. split; [exact E'|]. split; [exact Hinv2|]. split; [apply Hclk; exact Hcl1|]. split; [|split; [exact Hin2|]].
+    - intros k Hk. rewrite Hkeys, map_app. apply in_app_iff. left. exact Hk.
+    - intros x Hx Hne. apply Hkeep; [|exact Hne]. apply in_app_iff. left. exact Hx.
+  Qed.
+
+  Lemma rebuild_from_spec : forall ms c, (forall m, In m ms -> In m s /\ y_impl m = true) ->
+    Inv c -> ClosedEx [] c -> (forall k, In k (map key_of c0) -> In k (map key_of c)) ->
+    exists c', rebuild_from (S (length src)) src c (map describe_module ms) = Ok c' /\
+               Inv c' /\ ClosedEx [] c' /\ (forall k, In k (map key_of c) -> In k (map key_of c')) /\
+               (forall m, In m ms -> In m c') /\
+               (forall x, In x c -> ~ In (key_of x) (map key_of ms) -> In x c').
+  Proof.
+    induction ms as [|m ms IH]; intros c Hms Hinv Hcl H0.
+    - exists c. cbn [map rebuild_from]. split; [reflexivity|]. split; [exact Hinv|]. split; [exact Hcl|].
+      split; [auto|]. split; [intros m []|auto].
+    - cbn [map rebuild_from describe_module ym_name ym_rev ym_features].
+      destruct (Hms m (or_introl eq_refl)) as [Hm Hi].
+      destruct (load_module_spec c m Hinv Hcl H0 Hm Hi) as (c1 & E & Hinv1 & Hcl1 & Hk1 & Hin1 & Hkeep1).
+      rewrite E.
+      destruct (IH c1) as (c2 & E2 & Hinv2 & Hcl2 & Hk2 & Hin2 & Hkeep2); try assumption.
+      { intros m' Hm'. apply Hms. right. exact Hm'. }
+      { intros k Hk. apply Hk1, H0, Hk. }
+      exists c2. split; [exact E2|]. split; [exact Hinv2|]. split; [exact Hcl2|].
+      split; [intros k Hk; apply Hk2, Hk1, Hk|]. split.
+      + intros m' [<-|Hm']; [|apply Hin2; exact Hm'].
+        destruct (in_dec mkey_eq_dec (key_of m) (map key_of ms)) as [Hd|Hd].
+        * apply in_map_iff in Hd. destruct Hd as (m' & Hk' & Hm').
+          assert (m' = m) as <- by (apply s_key_inj; [apply Hms; right; exact Hm'|exact Hm|exact Hk']).
+          apply Hin2. exact Hm'.
+        * apply Hkeep2; assumption.
+      + intros x Hx Hn. apply Hkeep2.
+        * apply Hkeep1; [exact Hx|]. intros Ek. apply Hn. cbn [map]. left. symmetry. exact Ek.
+        * intros Hin. apply Hn. cbn [map]. right. exact Hin.
+  Qed.
+
+  Theorem roundtrip_section cid :
+    exists s', rebuild (describe cid s) src c0 = Ok s' /\ NoDup (map key_of s') /\ (forall x, In x s' <-> In x s).
+  Proof.
+    unfold rebuild, describe. cbn [yl_modules].
+    destruct (rebuild_from_spec (filter y_impl s) c0) as (c' & E & Hinv & Hcl & Hk & Hin & _).
+    { intros m Hm. apply filter_In in Hm. exact Hm. }
+    { exact H0inv. }
+    { exact H0closed. }
+    { auto. }
+    exists c'. split; [exact E|]. split; [apply Hinv|].
+    assert (Himpl_in : forall m, In m s -> y_impl m = true -> In m c').
+    { intros m Hm Hi. apply Hin. apply filter_In. split; assumption. }
+    intros x. split.
+    - intros Hx. destruct (inv_key_in c' x Hinv Hx) as (m & Hm & Hs & Hkx).
+      destruct (y_impl m) eqn:Hi.
+      + assert (x = m) as -> by (apply (nodup_key_inj c'); [apply Hinv|exact Hx|apply Himpl_in; assumption|exact Hkx]).
+        exact Hm.
+      + destruct Hs as [->| ->]; [exact Hm|]. rewrite (Hblank m Hm Hi). exact Hm.
+    - intros Hm. destruct (y_impl x) eqn:Hi; [apply Himpl_in; assumption|].
+      assert (Hkin : In (key_of x) (map key_of c')).
+      { destruct (Hreach x Hm Hi) as [H0k|(m0 & Hm0 & Hi0 & Hr)]; [apply Hk; exact H0k|].
+        apply (closed_reach c' m0 x Hinv Hcl Hm0 Hr Hm). apply in_map. apply Himpl_in; assumption. }
+      apply in_map_iff in Hkin. destruct Hkin as (y & Hky & Hy).
+      destruct (inv_key_in c' y Hinv Hy) as (m & Hm' & Hs & Hkm).
+      assert (m = x) as -> by (apply s_key_inj; congruence).
+      destruct Hs as [->| ->]; [exact Hy|]. rewrite (Hblank x Hm Hi) in Hy. exact Hy.
+  Qed.
 End Roundtrip.
+
+(* ------------------------------------------------------------------------------------------------ *)
+(* the theorem with its hypotheses as one record                                                     *)
+(* ------------------------------------------------------------------------------------------------ *)
+(* imports_pinned: an import without revision-date names a module of which the context and the sources hold one
+   revision only (for such a name the resolution cannot depend on the loading history) *)
+Definition imports_pinned (src : list ymod) (s : ctx) : Prop :=
+  forall m, In m s -> forall n, In (n, None) (y_imports m) -> exists r, unamb src s n r.
+
+Record rt_ok (src : list ymod) (s c0 : ctx) (rk : mkey -> nat) : Prop := mk_rt_ok {
+  (* one record per (name, revision) in the context and in the sources *)
+  rt_s_nodup : NoDup (map key_of s);
+  rt_src_nodup : NoDup (map key_of src);
+  (* same module sources: every module of the context is an internal one or its text is in the sources *)
+  rt_src : forall m, In m s ->
+    In (key_of m) (map key_of c0) \/ exists ms, In ms src /\ key_of ms = key_of m /\ blank ms = blank m;
+  (* every import of a module of the context means a module of the context (imports_pinned for imports without
+     revision-date is part of denotes), and imports are acyclic: rk decreases *)
+  rt_imports : forall m, In m s -> forall i, In i (y_imports m) ->
+    exists m', In m' s /\ denotes src s i m' /\ (rk (key_of m') < rk (key_of m))%nat;
+  rt_rk : forall m, In m s -> (rk (key_of m) <= length src)%nat;
+  (* a module that is not implemented has no enabled feature *)
+  rt_blank : forall m, In m s -> y_impl m = false -> blank m = m;
+  (* one implemented revision per module name; distinct feature names in a module *)
+  rt_impl1 : forall m m', In m s -> In m' s -> y_impl m = true -> y_impl m' = true -> y_name m = y_name m' -> m = m';
+  rt_feat : forall m, In m s -> NoDup (map f_name (concat (groups (y_mod m))));
+  (* an implemented module without revision is the only revision of its name *)
+  rt_req : forall m, In m s -> y_impl m = true -> y_rev m = None -> unamb src s (y_name m) None;
+  (* every import-only module is internal or imported (transitively) by an implemented module *)
+  rt_reach : forall m, In m s -> y_impl m = false ->
+    In (key_of m) (map key_of c0) \/ exists m0, In m0 s /\ y_impl m0 = true /\ reach src s m0 m;
+  (* the rebuild starts from modules of the context (their final or their freshly parsed state) *)
+  rt_c0_inv : Inv s c0;
+  rt_c0_closed : ClosedEx src s [] c0
+}.
+
+Theorem yanglib_roundtrip src s c0 rk cid : rt_ok src s c0 rk ->
+  exists s', rebuild (describe cid s) src c0 = Ok s' /\ NoDup (map key_of s') /\
+             (forall x, In x s' <-> In x s) /\
+             (forall h, In h (ctx_obs s') <-> In h (ctx_obs s)).
+Proof.
+  intros [H1 H2 H3 H4 H5 H6 H7 H8 H9 H10 H11 H12].
+  destruct (roundtrip_section src s c0 rk H1 H2 H3 H4 H5 H6 H7 H8 H9 H10 H11 H12 cid) as (s' & E & Hnd & Hiff).
+  exists s'. split; [exact E|]. split; [exact Hnd|]. split; [exact Hiff|].
+  intros h. unfold ctx_obs. rewrite !in_map_iff. split; intros (x & Hx & Hin); exists x; (split; [exact Hx|]); apply Hiff; exact Hin.
+Qed.
+
+Lemma rt_ok_imports_pinned src s c0 rk : rt_ok src s c0 rk -> imports_pinned src s.
+Proof.
+  intros H m Hm n Hi. destruct (rt_imports _ _ _ _ H m Hm _ Hi) as (m' & _ & Hd & _).
+  unfold denotes in Hd. cbn [fst snd] in Hd. exists (y_rev m'). apply Hd.
+Qed.
+
+(* ------------------------------------------------------------------------------------------------ *)
+(* a concrete instance: the hypotheses are satisfiable by a context with a pinned import of a module  *)
+(* that has two revisions in the sources, an import without revision-date, and an enabled feature     *)
+(* ------------------------------------------------------------------------------------------------ *)
+Definition e_x : bytes := [120].            (* x *)
+Definition e_a : bytes := [97].             (* a *)
+Definition e_b : bytes := [98].             (* b *)
+Definition e_r19 : bytes := [50;48;49;57;45;48;49;45;48;49].     (* 2019-01-01 *)
+Definition e_r20 : bytes := [50;48;50;48;45;48;49;45;48;49].     (* 2020-01-01 *)
+Definition e_ns (n : bytes) : bytes := [117;114;110;58] ++ n.    (* urn:<name> *)
+
+Definition e_X (impl en : bool) : ymod :=
+  mkymod (mkhmod e_x (Some e_r20) impl [mkfeat [102] en; mkfeat [103] false] [[mkfeat [104] en]]) (e_ns e_x)
+         [(e_a, Some e_r19); (e_b, None)].
+Definition e_A19 : ymod := mkymod (mkhmod e_a (Some e_r19) false [mkfeat [102] false] []) (e_ns e_a) [(e_b, None)].
+Definition e_A20 : ymod := mkymod (mkhmod e_a (Some e_r20) false [] []) (e_ns e_a) [].
+Definition e_B : ymod := mkymod (mkhmod e_b None false [] []) (e_ns e_b) [].
+
+Definition e_src : list ymod := [e_X false false; e_A19; e_A20; e_B].
+Definition e_s : ctx := [e_X true true; e_A19; e_B].
+Definition e_rk (k : mkey) : nat := if beq_bytes (fst k) e_x then 2 else if beq_bytes (fst k) e_a then 1 else 0.
+
+Ltac in_cases :=
+  repeat match goal with
+         | H : In _ (_ :: _) |- _ => destruct H as [<-|H]
+         | H : In _ [] |- _ => destruct H
+         | H : _ \/ _ |- _ => destruct H
+         | H : False |- _ => destruct H
+         end; subst.
+
+Lemma e_unamb_b : unamb e_src e_s e_b None.
+Proof. intros x Hx Hn. unfold e_s, e_src in Hx. in_cases; try reflexivity; cbn in Hn; discriminate. Qed.
+
+Lemma e_rt_ok : rt_ok e_src e_s [] e_rk.
+Proof.
+  constructor.
+  - cbn. repeat constructor; cbn; intuition discriminate.
+  - cbn. repeat constructor; cbn; intuition discriminate.
+  - intros m Hm. right. unfold e_s in Hm. in_cases.
+    + exists (e_X false false). split; [left; reflexivity|split; reflexivity].
+    + exists e_A19. split; [right; left; reflexivity|split; reflexivity].
+    + exists e_B. split; [right; right; right; left; reflexivity|split; reflexivity].
+  - intros m Hm i Hi. unfold e_s in Hm. in_cases; cbn in Hi; in_cases.
+    + exists e_A19. split; [right; left; reflexivity|]. split; [unfold denotes; simpl; reflexivity|cbn; lia].
+    + exists e_B. split; [right; right; left; reflexivity|]. split; [split; [reflexivity|exact e_unamb_b]|cbn; lia].
+    + exists e_B. split; [right; right; left; reflexivity|]. split; [split; [reflexivity|exact e_unamb_b]|cbn; lia].
+  - intros m Hm. unfold e_s in Hm. in_cases; cbn; lia.
+  - intros m Hm Hi. unfold e_s in Hm. in_cases; try reflexivity. discriminate.
+  - intros m m' Hm Hm' Hi Hi' _. unfold e_s in Hm, Hm'. in_cases; try reflexivity; discriminate.
+  - intros m Hm. unfold e_s in Hm. in_cases; cbn; repeat constructor; cbn; intuition discriminate.
+  - intros m Hm Hi Hr. unfold e_s in Hm. in_cases; discriminate.
+  - intros m Hm Hi. right. exists (e_X true true). split; [left; reflexivity|]. split; [reflexivity|].
+    unfold e_s in Hm. in_cases; try discriminate.
+    + eapply reach_step with (i := (e_a, Some e_r19)) (m' := e_A19);
+        [left; reflexivity|right; left; reflexivity|unfold denotes; simpl; reflexivity|apply reach_refl].
+    + eapply reach_step with (i := (e_b, None)) (m' := e_B);
+        [right; left; reflexivity|right; right; left; reflexivity|split; [reflexivity|exact e_unamb_b]|apply reach_refl].
+  - split; [constructor|intros x []].
+  - intros x [].
+Qed.
+
+(* and the model computes: the rebuild of this context from its description gives the same list *)
+Lemma e_rebuild : rebuild (describe [] e_s) e_src [] = Ok e_s.
+Proof. vm_compute. reflexivity. Qed.
+
+(* with the internal modules: a context as ly_ctx_new makes it, then x loaded with feature f, h *)
+Lemma e_rebuild_internal :
+  rebuild (describe [] (initial_ctx ++ e_s)) e_src initial_ctx = Ok (initial_ctx ++ e_s).
+Proof. vm_compute. reflexivity. Qed.
+
+(* an import without revision-date of a module with two revisions is outside the model *)
+Lemma e_unmodelled :
+  rebuild (describe [] [e_X true true]) [mkymod (y_mod (e_X false false)) (e_ns e_x) [(e_a, None)]; e_A19; e_A20] [e_A19]
+  = Err E_UNMODELLED.
+Proof. vm_compute. reflexivity. Qed.
